@@ -502,7 +502,23 @@ where
             });
 
         // Move entries out of the map — avoids Vec clone
-        let entries = entries_per_peer.remove(&peer_id).unwrap_or_default();
+        let mut entries = entries_per_peer.remove(&peer_id).unwrap_or_default();
+
+        // An AppendEntries request must carry consecutive indexes starting right after
+        // prev_log_index. When the legacy entries for a lagging peer are capped, the freshly
+        // appended entries that follow them in the per-peer list are not contiguous with them
+        // (e.g. [1, 2] + [11]); sending that would put an index gap into the follower's log.
+        // Keep the contiguous prefix only — the rest goes out with the next round.
+        let mut expected = prev_log_index + 1;
+        let contiguous = entries
+            .iter()
+            .take_while(|e| {
+                let ok = e.index == expected;
+                expected += 1;
+                ok
+            })
+            .count();
+        entries.truncate(contiguous);
 
         debug!(
             "[Leader {} -> Follower {}] Replicating {} entries",
